@@ -283,11 +283,17 @@ func (chain *groupChain) save(group *types.Group) error {
 		return err
 	}
 
-	chain.groups.Put(group.Id, data)
-	chain.groups.Put([]byte(lastGroupKey), group.Id)
-	chain.groups.Put(generateKey(chain.count), group.Id)
+	// one atomic batch: a process death must not leave record, last pointer, height index and count out of step
+	batch := chain.groups.NewBatch()
+	batch.Put(group.Id, data)
+	batch.Put([]byte(lastGroupKey), group.Id)
+	batch.Put(generateKey(chain.count), group.Id)
+	batch.Put([]byte(groupCountKey), utility.UInt64ToByte(chain.count+1))
+	if err = batch.Write(); err != nil {
+		logger.Errorf("Save group error:%s", err.Error())
+		return err
+	}
 	chain.count++
-	chain.groups.Put([]byte(groupCountKey), utility.UInt64ToByte(chain.count))
 	chain.lastGroup = group
 	logger.Debugf("Add group on chain success! Group id:%s,group pubkey:%s", hex.EncodeToString(group.Id), hex.EncodeToString(group.PubKey))
 
